@@ -259,6 +259,96 @@ MK_PICK = {       # a value out of two, per markup kind (block arguments / data 
 MK_COLUMNS = ["message_text", "message_text", "message_text", "choices", "condition", "include_if", "loop-list", "group"]
 
 
+# ---- templates that MUTATE what they are given (wave 4) --------------------------------------------------------------------------
+# "nothing evaluated for one instance (data row, arguments, loop variables) is visible to another" also when the template changes
+# the value in place.  op -> (cell text over @X, the same step on the reference's own python list -> what the cell renders,
+# safe on an empty list)
+def _al(fn):
+    def run(l):
+        r = fn(l)
+        return "" if r is None else r
+    return run
+
+
+AL_OPS = {
+    "pop": ("{{ @X.pop() }}", _al(lambda l: l.pop()), False),
+    "pop0": ("{{ @X.pop(0) }}", _al(lambda l: l.pop(0)), False),
+    "pop-guarded": ("{{ @X.pop() if @X else '-' }}", _al(lambda l: l.pop() if l else "-"), True),
+    "pop0-guarded": ("{{ @X.pop(0) if @X else '-' }}", _al(lambda l: l.pop(0) if l else "-"), True),
+    "append": ("{{ @X.append('Z') or '' }}", _al(lambda l: l.append("Z")), True),
+    "insert": ("{{ @X.insert(0, 'Y') or '' }}", _al(lambda l: l.insert(0, "Y")), True),
+    "reverse": ("{{ @X.reverse() or '' }}", _al(lambda l: l.reverse()), True),
+    "sort": ("{{ @X.sort() or '' }}", _al(lambda l: l.sort()), True),
+    "extend": ("{{ @X.extend(['Z', 'Y']) or '' }}", _al(lambda l: l.extend(["Z", "Y"])), True),
+    "set-append": ("{% set _ = @X.append('S') %}", _al(lambda l: l.append("S")), True),
+    "set-sortrev": ("{% set _ = @X.sort(reverse=True) %}", _al(lambda l: l.sort(reverse=True)), True),
+    "set-clear": ("{% set _ = @X.clear() %}", _al(lambda l: l.clear()), True),
+    "set-remove": ("{% if @X %}{% set _ = @X.remove(@X[0]) %}{% endif %}", _al(lambda l: l.remove(l[0]) if l else None), True),
+    "set-item": ("{% if @X %}{% set _ = @X.__setitem__(0, 'W') %}{% endif %}", _al(lambda l: l.__setitem__(0, "W") if l else None), True),
+    "for-pop": ("{% for e_ in @X[1:] %}{{ @X.pop() }}{% endfor %}", _al(lambda l: "".join(l.pop() for _ in l[1:])), True),
+}
+AL_SHOW = ":{{ @X|join('+') }}:{{ @X|length }}."
+# the rows of a data sheet bound to a `sheet` argument (an ordered dict ID -> row model); reference: a list of row dicts
+AL_SHEET_OPS = {
+    "s-popfirst": ("{{ @X.pop((@X.keys()|list)[0]).ID if @X else '-' }}", lambda sh: sh.pop(0)["ID"] if sh else "-"),
+    "s-clear": ("{% set _ = @X.clear() %}", lambda sh: sh.clear() or ""),
+    "s-setcol": ("{% for r in @X.values() %}{% if r.col is defined %}{% set _ = r.__setattr__('col', 'CH') %}{% endif %}{% endfor %}",
+                 lambda sh: [r.__setitem__("col", "CH") for r in sh if "col" in r] and "" or ""),
+    "s-rowlist": ("{% for r in @X.values() %}{% if r.pairs is defined %}{% set _ = r.pairs[0].append('Q') %}{% endif %}{% endfor %}",
+                  lambda sh: [r["pairs"][0].append("Q") for r in sh if "pairs" in r] and "" or ""),
+    "s-popitem": ("{{ @X.popitem()[0] if @X else '-' }}", lambda sh: sh.pop()["ID"] if sh else "-"),
+}
+AL_SHEET_SHOW = (":{{ @X|length }}:{{ @X.values()|map(attribute='ID')|join('+') }}:"
+                 "{% for r in @X.values() %}{{ r.pairs[0]|join('+') if r.pairs is defined else r.col }},{% endfor %}.")
+
+
+def al_cell(tag, ops, X, table=AL_OPS, show=AL_SHOW):
+    return tag + ":" + "".join(table[o][0] for o in ops).replace("@X", X) + show.replace("@X", X)
+
+
+def al_msg(tag, ops, l):
+    """what al_cell renders when @X is the python list l (changed in place, as the template changes its own)"""
+    done = "".join(AL_OPS[o][1](l) for o in ops)
+    return f"{tag}:{done}:{'+'.join(l)}:{len(l)}."
+
+
+def al_sheet_msg(tag, ops, sh):
+    done = "".join(AL_SHEET_OPS[o][1](sh) for o in ops)
+    return f"{tag}:{done}:{len(sh)}:{'+'.join(r['ID'] for r in sh)}:" + "".join(("+".join(r["pairs"][0]) if "pairs" in r else r["col"]) + "," for r in sh) + "."
+
+
+def nested_cell(v):
+    """cell text of a list of lists of words (each inner list keeps its list shape: trailing separators for singletons)"""
+    s = "|".join(";".join(x) + (";" if len(x) == 1 else "") for x in v)
+    return s + "|" if len(v) == 1 else s
+
+
+def gen_al(rng, routes, lits, lst_args, sheet_args):
+    route = rng.choice(routes)
+    n_ops = rng.choice([1, 1, 2, 2, 3])
+    p = dict(route=route)
+    if route == "sheet":
+        p.update(which=rng.choice(sheet_args), ops=[rng.choice(list(AL_SHEET_OPS)) for _ in range(n_ops)])
+        return p
+    ops = [rng.choice(list(AL_OPS)) for _ in range(n_ops)]
+    if route == "lit2":
+        p.update(lit=rng.randrange(len(lits)), twice=rng.random() < 0.35, index=rng.random() < 0.3)
+        # every parse of the cell yields the lists anew: a pop per element is safe without a guard, as long as nothing else shortens them
+        room = min(len(x) for x in lits[p["lit"]])
+        if not (all(o in ("pop", "pop0") for o in ops) and len(ops) <= room):
+            ops = [o + "-guarded" if o in ("pop", "pop0") else o for o in ops]
+    else:
+        ops = [o + "-guarded" if o in ("pop", "pop0") else o for o in ops]
+    p["ops"] = ops
+    if route == "rowdirect":
+        p["at"] = rng.choice(["0", "-1"])
+    if route == "arg":
+        p["which"] = rng.choice(lst_args)
+    if route == "block":
+        p.update(src=rng.choice(["lit", "lit", "items"]), elems=rng.sample(["p", "q", "s", "t"], rng.choice([1, 2, 3])), withrow=rng.random() < 0.5)
+    return p
+
+
 def mk_value(p, x):
     v = MK_FORMS[p["form"]][1](x, p["C"])
     return v.replace("@X@", p["src"]) if p["form"] == "raw" else v
@@ -331,8 +421,12 @@ def gen_case(rng, malformed=False):
         data.append(dict(ID=i, val=rng.choice(WORDS) + str(rng.randrange(10)),
                          items=[rng.choice(lk_ids) for _ in range(n_items)],
                          flag=rng.choice(["yes", "no"]), bid=rng.choice(["b1", "b2"]),
-                         key=rng.choice(lk_ids)))
-    bdata = [dict(ID="b1", bval="BV1"), dict(ID="b2", bval="BV2")]
+                         key=rng.choice(lk_ids),
+                         pairs=[[rng.choice(WORDS) for _ in range(rng.choice([1, 2, 2, 3]))] for _ in range(rng.choice([1, 2, 2, 3]))]))
+    bdata = [dict(ID="b1", bval="BV1", bl=[rng.choice(WORDS) for _ in range(rng.choice([1, 2, 3]))]),
+             dict(ID="b2", bval="BV2", bl=[rng.choice(WORDS) for _ in range(rng.choice([1, 2, 3]))])]
+    # literal two-level lists for begin_for cells: a small pool per workbook, so the same cell text turns up in several loops / templates
+    lits = [[[rng.choice(WORDS) for _ in range(rng.choice([1, 2, 2, 3]))] for _ in range(rng.choice([1, 2, 3, 3]))] for _ in range(2)]
     lookup = [dict(ID=k, col="C" + k + str(rng.randrange(10))) for k in lk_ids]
 
     consts = {"val": sorted({d["val"] for d in data}), "flag": ["yes", "no"], "key": list(lk_ids), "ID": list(ids), "it": list(lk_ids),
@@ -342,9 +436,12 @@ def gen_case(rng, malformed=False):
     def gen_defs(prefix):
         defs = []
         for j in range(rng.choice([0, 1, 2, 2, 3])):
-            kind = rng.choice(["req", "req", "dflt", "dflt", "sheet", "sheetd"])
+            kind = rng.choice(["req", "req", "dflt", "dflt", "sheet", "sheetd", "lst", "lst"])
             name = f"{prefix}{j + 1}"
-            if kind == "req":
+            if kind == "lst":
+                defs.append((name, "", ""))     # a required argument that is GIVEN a list (untyped template_arguments cell)
+                lst_names.add(name)
+            elif kind == "req":
                 defs.append((name, "", ""))
             elif kind == "dflt":
                 defs.append((name, "", "df" + name))
@@ -359,6 +456,8 @@ def gen_case(rng, malformed=False):
         for (n, t, d) in defs:
             if t == "sheet":
                 args.append("" if d and rng.random() < 0.6 else rng.choice(["lookup", "lookup", "data"]))
+            elif n in lst_names:
+                args.append([rng.choice(WORDS).replace(" ", "_") for _ in range(rng.choice([1, 2, 3]))])
             else:
                 args.append("" if d and rng.random() < 0.5 else rng.choice(WORDS).replace(" ", "_") + n.upper())
         while args and args[-1] == "" and rng.random() < 0.7:
@@ -367,8 +466,14 @@ def gen_case(rng, malformed=False):
 
     def gen_features(defs, has_data, allow_block=True):
         feats = []
-        pool = ["args", "probe", "group", "router", "litloop"]
-        plain_args = [n for n, t, _ in defs if t != "sheet"]
+        pool = ["args", "probe", "group", "router", "litloop", "al", "al", "al"]
+        plain_args = [n for n, t, _ in defs if t != "sheet" and n not in lst_names]
+        lst_args = [n for n, t, _ in defs if n in lst_names]
+        sheet_args = [n for n, t, _ in defs if t == "sheet"]
+        al_routes = ["lit2", "lit2", "lit2"] + (["rowpairs", "rowpairs", "rowitems", "rowdirect"] if has_data else []) + ["arg"] * (2 if lst_args else 0) \
+            + ["sheet"] * (2 if sheet_args else 0) + (["block", "block"] if has_data and allow_block else [])
+        if lst_args or sheet_args or has_data:
+            pool += ["al", "al"]
         sources = (["val", "flag", "key", "ID"] if has_data else []) + plain_args
         if sources:
             pool += ["mk"] * 5
@@ -393,6 +498,8 @@ def gen_case(rng, malformed=False):
                 p = dict(target=rng.randrange(1000))
             if f == "mk":
                 p = gen_mk(rng, sources, consts)
+            if f == "al":
+                p = gen_al(rng, al_routes, lits, lst_args, sheet_args)
             if f == "mkloop":
                 p = gen_mk(rng, sources + ["it", "it"], consts)
                 p["col"] = rng.choice(["message_text", "message_text", "include_if", "choices"])
@@ -408,6 +515,7 @@ def gen_case(rng, malformed=False):
         feats = [x for x in feats if x[0] != "startflow"] + sf[:1]
         return feats
 
+    lst_names = set()
     templates = {}
     n_tpl = rng.choice([1, 1, 2])
     for t in range(n_tpl):
@@ -430,7 +538,7 @@ def gen_case(rng, malformed=False):
                                 new_name=rng.choice(["", f"ren{len(creates)}", f"N {len(creates)}"])))
         # the values each plain argument takes in this workbook (given or default): constants the markup compares with
         for j, (n, ty, d) in enumerate(tp["defs"]):
-            if ty != "sheet":
+            if ty != "sheet" and n not in lst_names:
                 consts[n] = sorted({(c["args"][j] if j < len(c["args"]) and c["args"][j] != "" else d) for c in creates if c["template"] == name})
         tp["feats"] = gen_features(tp["defs"], has_data)
     # distinct flow names per create row: blank new_name only once per template
@@ -448,8 +556,10 @@ def gen_case(rng, malformed=False):
     for q in blk2["feats"] + blk2["blk3"]:
         if q["col"] == "loop-list" and rng.random() < 0.5:
             q["col"] = "message_text"
+    blkm = dict(ops_g=[o for o in (rng.choice(list(AL_OPS)) for _ in range(rng.choice([1, 2]))) if AL_OPS[o][2]] or ["append"],
+                ops_b=[o for o in (rng.choice(list(AL_OPS)) for _ in range(rng.choice([1, 2]))) if AL_OPS[o][2]] or ["set-append"])
     case = dict(ids=ids, data=data, bdata=bdata, lookup=lookup, templates=templates, creates=creates,
-                blk_defs=[("b1", "", "bd")], malformed=None, blk2=blk2,
+                blk_defs=[("b1", "", "bd")], malformed=None, blk2=blk2, lits=lits, lst_names=sorted(lst_names), blkm=blkm,
                 index_order=rng.choice(["defs-first", "creates-first"]))
     if malformed:
         case["malformed"] = rng.choice(["missing-required", "clash", "unknown-sheet", "too-many", "empty-loop",
@@ -560,9 +670,84 @@ def render_template(case, name):
             rows.append(tpl_row(type="end_for"))
         elif f == "mkblock":
             rows.append(mkblock_row(p))
+        elif f == "al":
+            rows += al_rows(case, p)
     if len(rows) == 1:
         rows.append(tpl_row(type="send_message", message_text="empty."))
     return rows
+
+
+def al_rows(case, p):
+    """rows of one mutating feature: the template changes, in place, a value it was given"""
+    r, ops = p["route"], p["ops"]
+    if r == "lit2":
+        text = nested_cell(case["lits"][p["lit"]])
+        rows = [tpl_row(type="begin_for", loop_variable="pr;k" if p["index"] else "pr", message_text=text),
+                tpl_row(type="send_message", message_text=al_cell("AL{{k}}" if p["index"] else "AL", ops, "pr")),
+                tpl_row(type="end_for")]
+        if p["twice"]:      # the same cell text once more, later in the same instance: read only
+            rows += [tpl_row(type="begin_for", loop_variable="pr", message_text=text),
+                     tpl_row(type="send_message", message_text="AL2:{{ pr|join('+') }}."),
+                     tpl_row(type="end_for")]
+        return rows
+    if r == "rowpairs":
+        return [tpl_row(type="begin_for", loop_variable="pr", message_text="{@ pairs @}"),
+                tpl_row(type="send_message", message_text=al_cell("ALP", ops, "pr")),
+                tpl_row(type="end_for"),
+                tpl_row(type="send_message", message_text="ALR:{{ pairs|map('join', '+')|join('/') }}.")]
+    if r == "rowitems":
+        return [tpl_row(type="send_message", message_text=al_cell("ALI", ops, "items"))]
+    if r == "rowdirect":
+        return [tpl_row(type="send_message", message_text=al_cell("ALD", ops, "pairs[%s]" % p["at"]))]
+    if r == "arg":
+        return [tpl_row(type="send_message", message_text=al_cell("ALA", ops, p["which"]))]
+    if r == "sheet":
+        return [tpl_row(type="send_message", message_text=al_cell("ALS", ops, p["which"], AL_SHEET_OPS, AL_SHEET_SHOW))]
+    if r == "block":
+        arg = nested_cell([p["elems"]]) if p["src"] == "lit" else "{@ [items] @}"
+        if p["withrow"]:
+            return [tpl_row(type="insert_as_block", message_text="blkm", data_sheet="bdata", data_row_id="{{bid}}", template_arguments=arg)]
+        return [tpl_row(type="insert_as_block", message_text="blkm", template_arguments=arg)]
+    raise ValueError(r)
+
+
+def render_blkm(case):
+    """a block that changes its argument (a list) and, when it has a data row, a list field of that row"""
+    b = case["blkm"]
+    return [TPL_HEAD,
+            tpl_row(type="send_message", message_text=al_cell("BM", b["ops_g"], "g1")),
+            tpl_row(type="begin_block", include_if="{@ bl is defined @}"),
+            tpl_row(type="send_message", message_text=al_cell("BMR", b["ops_b"], "bl")),
+            tpl_row(type="end_block")]
+
+
+def al_texts(case, p, env, row, sheets):
+    """reference: every instance works on values of its own (the environment `env`, `row`, `sheets` is private to the instance)"""
+    r, ops = p["route"], p["ops"]
+    if r == "lit2":
+        out = []
+        for k, pr in enumerate(copy.deepcopy(case["lits"][p["lit"]])):       # the cell is read anew by every loop of every instance
+            out.append(al_msg(f"AL{k}" if p["index"] else "AL", ops, pr))
+        if p["twice"]:
+            out += ["AL2:" + "+".join(pr) + "." for pr in case["lits"][p["lit"]]]
+        return out
+    if r == "rowpairs":
+        return [al_msg("ALP", ops, pr) for pr in list(row["pairs"])] + ["ALR:" + "/".join("+".join(q) for q in row["pairs"]) + "."]
+    if r == "rowitems":
+        return [al_msg("ALI", ops, row["items"])]
+    if r == "rowdirect":
+        return [al_msg("ALD", ops, row["pairs"][int(p["at"])])]
+    if r == "arg":
+        return [al_msg("ALA", ops, env[p["which"]])]
+    if r == "sheet":
+        return [al_sheet_msg("ALS", ops, env[p["which"]])]
+    if r == "block":
+        g = list(p["elems"]) if p["src"] == "lit" else copy.deepcopy(row["items"])     # the block's context is a copy of what it is given
+        out = [al_msg("BM", case["blkm"]["ops_g"], g)]
+        if p["withrow"]:
+            out.append(al_msg("BMR", case["blkm"]["ops_b"], list(next(b["bl"] for b in case["bdata"] if b["ID"] == row["bid"]))))
+        return out
+    raise ValueError(r)
 
 
 def mkblock_row(p):
@@ -658,6 +843,10 @@ def defs_cell(defs):
 
 
 def args_cell(args):
+    if any(isinstance(a, list) for a in args):
+        # a list-valued argument needs the outer separator: `p;q|w` = (['p','q'], 'w'); a singleton list keeps its shape by a trailing `;`
+        s = "|".join((";".join(a) + (";" if len(a) == 1 else "")) if isinstance(a, list) else a for a in args)
+        return s + "|" if len(args) == 1 or args[-1] == "" else s
     return ";".join(args)
 
 
@@ -692,11 +881,19 @@ def create_row(create, rid, with_sheet):
 
 
 def base_sheets(case):
+    def cell(v):
+        if isinstance(v, list) and any(isinstance(x, list) for x in v):
+            return nested_cell(v)
+        if isinstance(v, list):
+            return ";".join(v) + (";" if len(v) == 1 else "")
+        return v
+
     def table(rows, cols):
-        return [cols] + [[(";".join(r[c.split(":")[0]]) + (";" if len(r[c.split(":")[0]]) == 1 else "")) if c.startswith("items") else r[c] for c in cols] for r in rows]
+        return [cols] + [[cell(r[c.split(":")[0]]) for c in cols] for r in rows]
     sheets = {
-        "data": table(case["data"], ["ID", "val", "items:List[str]", "flag", "bid", "key"]),
-        "bdata": table(case["bdata"], ["ID", "bval"]),
+        "data": table(case["data"], ["ID", "val", "items:List[str]", "flag", "bid", "key", "pairs:list"]),
+        "bdata": table(case["bdata"], ["ID", "bval", "bl:List[str]"]),
+        "blkm": render_blkm(case),
         "lookup": table(case["lookup"], ["ID", "col"]),
         "blk": render_blk(),
         "blk2": render_blk2(case),
@@ -712,6 +909,7 @@ def index_rows(case, create_rows):
     defs.append(["template_definition", "blk", "", "", defs_cell(case["blk_defs"]), "", ""])
     defs.append(["template_definition", "blk2", "", "", defs_cell([("b1", "", "bd")]), "", ""])
     defs.append(["template_definition", "blk3", "", "", defs_cell([("d1", "", "bd")]), "", ""])
+    defs.append(["template_definition", "blkm", "", "", defs_cell([("g1", "", "")]), "", ""])
     ds = [["data_sheet", n, "", "", "", "", ""] for n in ("data", "bdata", "lookup")]
     if case["index_order"] == "defs-first":
         return [INDEX_HEAD] + defs + ds + create_rows
@@ -749,14 +947,14 @@ def expected_texts(case, create, rid):
     env = {}
     for (n, t, d), a in zip(defs, args):
         v = a if a != "" else d
-        env[n] = sheets[v] if t == "sheet" else v
+        env[n] = sheets[v] if t == "sheet" else copy.deepcopy(v)
     others = [n for tn, t2 in case["templates"].items() if tn != create["template"] for n, _, _ in t2["defs"]]
     out = []
     for f, p in tp["feats"]:
         if f == "field":
             out.append(f"F:{row['val']}:{row['ID']}.")
         elif f == "args":
-            out.append("A:" + "".join(env[n] + "/" for n, t, _ in defs if t != "sheet") + ".")
+            out.append("A:" + "".join(str(env[n]) + "/" for n, t, _ in defs if t != "sheet") + ".")
         elif f == "sheet":
             out.append(f"S:M{len(env[p['which']])}.")
         elif f == "readlk":
@@ -787,8 +985,10 @@ def expected_texts(case, create, rid):
             out.append("R:" + "+".join(row["items"]) + ".")
         elif f == "router":
             out += ["RT:yes.", "RT:no."]
+        elif f == "al":
+            out += al_texts(case, p, env, row, sheets)
         elif f in ("mk", "mkloop", "mkblock"):
-            menv = {n: env[n] for n, t, _ in defs if t != "sheet"}
+            menv = {n: env[n] for n, t, _ in defs if t != "sheet" and not isinstance(env[n], list)}
             if row is not None:
                 menv.update(val=row["val"], flag=row["flag"], key=row["key"], ID=row["ID"])
             if f == "mk":
@@ -1220,6 +1420,292 @@ def _build_parser(sheets, idx_rows):
 
 
 # =====================================================================================
+# (a) Index/Alias.v: instances that change their values in place — the extracted run_all against create_flows
+# =====================================================================================
+# op name -> wire form (Wire/C12Wire.dec_mop)
+def enc_mop(o):
+    fixed = {"pop": "(0)", "pop0": "(1)", "pop-guarded": "(2)", "pop0-guarded": "(3)", "reverse": "(6)", "sort": "(7)", "set-sortrev": "(8)",
+             "set-clear": "(10)", "set-remove": "(11)", "for-pop": "(13)"}
+    if o in fixed:
+        return fixed[o]
+    if o == "append":
+        return f"(4 {enc_str('Z')})"
+    if o == "set-append":
+        return f"(4 {enc_str('S')})"
+    if o == "insert":
+        return f"(5 {enc_str('Y')})"
+    if o == "extend":
+        return f"(9 ({enc_str('Z')} {enc_str('Y')}))"
+    if o == "set-item":
+        return f"(12 {enc_str('W')})"
+    raise ValueError(o)
+
+
+AM_SEL = {"self": ("@V", 0), "first": ("@V[0]", 1), "last": ("@V[-1]", 2)}
+
+
+def gen_alias_case(rng):
+    """templates whose rows change lists in place, a data sheet with a flat and a two-level list field, create_flow rows (bulk,
+    single, the same data row again, a list-valued template argument): one run = one sequence of instances"""
+    ids = rng.sample(["r1", "r2", "r3", "x"], rng.choice([1, 2, 2, 3]))
+    word = lambda: rng.choice(["a", "b", "c", "Lo", "k9", "é1", "Zed", "mm"])
+    data = {i: dict(p=[word() for _ in range(rng.choice([1, 2, 3]))],
+                    q=[[word() for _ in range(rng.choice([1, 2, 3]))] for _ in range(rng.choice([1, 2, 3]))]) for i in ids}
+    lits = [[[word() for _ in range(rng.choice([1, 2, 2, 3]))] for _ in range(rng.choice([1, 2, 3]))] for _ in range(2)]
+    risky = rng.random() < 0.25          # unguarded pops beyond what is there: some instance stops
+
+    def ops():
+        names = [o for o in AL_OPS if risky or AL_OPS[o][2]] + ["pop"]
+        return [rng.choice(names) for _ in range(rng.choice([0, 1, 1, 2, 2, 3]))]
+
+    templates = {}
+    for t in ["ta", "tb"][:rng.choice([1, 2, 2])]:
+        has_arg = rng.random() < 0.5
+        items = []
+        for _ in range(rng.choice([1, 2, 3, 4])):
+            k = rng.random()
+            if k < 0.3:
+                items.append(("loop", ("lit", rng.randrange(2)), ops()))
+            elif k < 0.5:
+                items.append(("loop", ("var", "q"), ops()))
+            else:
+                v, sel = rng.choice([("p", "self"), ("p", "self"), ("q", "first"), ("q", "last")] + ([("g", "self")] * 2 if has_arg else []))
+                items.append(("msg", v, sel, ops()))
+        templates[t] = dict(has_arg=has_arg, items=items)
+    creates = []
+    for k in range(rng.choice([1, 2, 3, 4])):
+        t = rng.choice(list(templates))
+        creates.append(dict(template=t, row_id=rng.choice(["", "", rng.choice(ids)]), new_name=f"n{k}",
+                            arg=[word() for _ in range(rng.choice([1, 2, 3]))] if templates[t]["has_arg"] else None))
+    return dict(ids=ids, data=data, lits=lits, templates=templates, creates=creates, risky=risky)
+
+
+def alias_case_sheets(c):
+    sheets = {"data": [["ID", "p:list", "q:list"]] + [[i, ";".join(c["data"][i]["p"]) + (";" if len(c["data"][i]["p"]) == 1 else ""), nested_cell(c["data"][i]["q"])]
+                                                        for i in c["ids"]]}
+    head = ["row_id", "type", "from", "loop_variable", "message_text"]
+    for t, tp in c["templates"].items():
+        rows = [head]
+        for it in tp["items"]:
+            if it[0] == "msg":
+                _, v, sel, ops = it
+                rows.append(["", "send_message", "", "", al_cell("M", ops, AM_SEL[sel][0].replace("@V", v))])
+            else:
+                _, (kind, what), ops = it
+                rows.append(["", "begin_for", "", "pr", nested_cell(c["lits"][what]) if kind == "lit" else "{@ %s @}" % what])
+                rows.append(["", "send_message", "", "", al_cell("M", ops, "pr")])
+                rows.append(["", "end_for", "", "", ""])
+        sheets[t] = rows
+    idx = [INDEX_HEAD, ["data_sheet", "data", "", "", "", "", ""]]
+    for t, tp in c["templates"].items():
+        idx.append(["template_definition", t, "", "", "g;;|" if tp["has_arg"] else "", "", ""])
+    for cr in c["creates"]:
+        idx.append(["create_flow", cr["template"], "data", cr["row_id"], args_cell([cr["arg"]]) if cr["arg"] is not None else "", cr["new_name"], ""])
+    sheets["content_index"] = idx
+    return sheets
+
+
+def alias_case_instances(c):
+    """the instances of the run in the order create_flows generates them: (flow name, create row number, data row)"""
+    out = []
+    for k, cr in enumerate(c["creates"]):
+        for i in ([cr["row_id"]] if cr["row_id"] else c["ids"]):
+            out.append((f"{cr['new_name']} - {i}", k, i))
+    return out
+
+
+def enc_alias_case(c):
+    def item(it):
+        if it[0] == "msg":
+            _, v, sel, ops = it
+            return f"(0 {enc_str(v)} {AM_SEL[sel][1]} ({' '.join(enc_mop(o) for o in ops)}))"
+        _, (kind, what), ops = it
+        src = f"(0 {enc_str(nested_cell(c['lits'][what]))})" if kind == "lit" else f"(1 {enc_str(what)})"
+        return f"(1 {src} ({' '.join(enc_mop(o) for o in ops)}))"
+    insts = []
+    for name, k, i in alias_case_instances(c):
+        cr = c["creates"][k]
+        tp = c["templates"][cr["template"]]
+        # (variable, the registry object it comes from, value): a field of a data row belongs to the row, an argument to the index row
+        binds = [f"({enc_str('p')} {enc_str('data/' + i + '/p')} {enc_nv(c['data'][i]['p'])})",
+                 f"({enc_str('q')} {enc_str('data/' + i + '/q')} {enc_nv(c['data'][i]['q'])})"]
+        if cr["arg"] is not None:
+            binds.append(f"({enc_str('g')} {enc_str('index row %d/arg' % k)} {enc_nv(cr['arg'])})")
+        insts.append(f"(({' '.join(binds)}) ({' '.join(item(it) for it in tp['items'])}))")
+    return f"(112 6 ({' '.join(insts)}))"
+
+
+def alias_text(o):
+    """what al_cell renders, from the model's observation (printed values, the list afterwards)"""
+    printed, shown = [dec_nv(x) for x in o[0]], dec_nv(o[1])
+    return "M:" + "".join(str(x) for x in printed) + ":" + "+".join(str(x) for x in shown) + f":{len(shown)}."
+
+
+def run_alias_correspondence(ctx, n):
+    """Index/Alias.run_all (extracted, under the policy measured on the code) against create_flows: the same sequences of instances
+    — bulk rows, the same data row again, the same literal cell in several loops, a list-valued argument shared by the instances of
+    an index row — whose rows pop / append / sort / clear ... the lists they are given; every instance compared (message texts),
+    and the instance at which the run stops"""
+    rng, m = ctx.rng, ctx.model
+    cases = [gen_alias_case(rng) for _ in range(n)]
+    outs = m.ask_many([enc_alias_case(c) for c in cases]) if m else None
+    st = {"runs": 0, "instances": 0, "instances_per_run": {}, "runs_with_a_data_row_instantiated_twice": 0, "runs_with_a_literal_cell_in_two_loops": 0,
+          "runs_with_a_shared_argument": 0, "ops": {}, "items": {}, "model": {"ok": 0, "stops": 0, "unsupported": 0}, "policy_as_coded": None}
+    nontrivial = set()
+    for k, c in enumerate(cases):
+        ctx.v.coverage["evaluations"] += 1
+        insts = alias_case_instances(c)
+        st["runs"] += 1
+        st["instances"] += len(insts)
+        st["instances_per_run"][len(insts)] = st["instances_per_run"].get(len(insts), 0) + 1
+        rows_used = [i for _, _, i in insts]
+        st["runs_with_a_data_row_instantiated_twice"] += 1 if len(set(rows_used)) < len(rows_used) else 0
+        lit_loops = [it[1][1] for _, kk, _ in insts for it in c["templates"][c["creates"][kk]["template"]]["items"] if it[0] == "loop" and it[1][0] == "lit"]
+        st["runs_with_a_literal_cell_in_two_loops"] += 1 if len(set(lit_loops)) < len(lit_loops) else 0
+        st["runs_with_a_shared_argument"] += 1 if any(cr["arg"] is not None and not cr["row_id"] and len(c["ids"]) > 1 for cr in c["creates"]) else 0
+        for tp in c["templates"].values():
+            for it in tp["items"]:
+                kind = it[0] + "/" + (it[2] if it[0] == "msg" else it[1][0])
+                st["items"][kind] = st["items"].get(kind, 0) + 1
+                for o in it[-1]:
+                    st["ops"][o] = st["ops"].get(o, 0) + 1
+        r = compile_book(alias_case_sheets(c))
+        if r[0] == "ok":
+            flows = {f["name"]: texts_of(f) for f in r[1]["flows"]}
+            impl = ("ok", [flows.get(nm) for nm, _, _ in insts])
+        else:
+            impl = ("err",)
+        if len(insts) >= 2:
+            nontrivial.add(repr((c["creates"], c["templates"])))
+        if outs is None:
+            continue
+        mo = parse_sexp(outs[k])
+        if not (isinstance(mo, list) and len(mo) == 2):
+            ctx.disagree("Alias.run_all: the model refuses the input", repr(c)[:500], repr(mo)[:200], repr(impl)[:200])
+            continue
+        st["policy_as_coded"] = {"instance_context_private": bool(mo[0][0]), "literal_lists_fresh": bool(mo[0][1])}
+        res = mo[1]
+        if any(is_err(x) and x[1] != 1 for x in res):
+            st["model"]["unsupported"] += 1         # outside the model: nothing claimed
+            continue
+        if res and is_err(res[-1]):
+            st["model"]["stops"] += 1
+            mod = ("err",)
+        else:
+            st["model"]["ok"] += 1
+            mod = ("ok", [[alias_text(o) for o in x[1]] for x in res])
+        if mod != impl:
+            what = "instances that change their values in place: create_flows vs Alias.run_all"
+            if mod[0] == impl[0] == "ok":
+                j = next(j for j, (a, b) in enumerate(zip(mod[1], impl[1])) if a != b)
+                what += f" (instance {j} of {len(insts)}, flow {insts[j][0]!r})"
+                ctx.disagree(what, repr(dict(creates=c["creates"], templates=c["templates"], data=c["data"], lits=c["lits"]))[:900], repr(mod[1][j]), repr(impl[1][j]))
+            else:
+                ctx.disagree(what, repr(dict(creates=c["creates"], templates=c["templates"], data=c["data"], lits=c["lits"]))[:900], repr(mod)[:300],
+                             repr(impl if impl[0] == "ok" else r)[:300])
+    ctx.stats["mutation_model_runs"] = st
+    return nontrivial
+
+
+# =====================================================================================
+# identity of the mutable values an instance can reach (wave 4)
+# =====================================================================================
+_IMMUTABLE = (str, int, float, bool, type(None), bytes, frozenset, complex, range)
+
+
+def reachable_mutables(root, keep, limit=20000):
+    """ids of the mutable objects reachable from root (lists, dicts, sets, objects with attributes), following containers, tuples
+    and attributes; every object visited is appended to `keep`, so that it stays alive and its id is not reused"""
+    import types
+    out, todo, seen = {}, [root], set()
+    while todo and len(seen) < limit:
+        x = todo.pop()
+        if isinstance(x, _IMMUTABLE) or id(x) in seen:
+            continue
+        if isinstance(x, (type, types.ModuleType, types.FunctionType, types.BuiltinFunctionType, types.MethodType)):
+            continue
+        seen.add(id(x))
+        keep.append(x)
+        if isinstance(x, dict):
+            out[id(x)] = type(x).__name__
+            todo.extend(x.keys())
+            todo.extend(x.values())
+        elif isinstance(x, (list, set, bytearray)):
+            out[id(x)] = type(x).__name__
+            if not isinstance(x, bytearray):
+                todo.extend(x)
+        elif isinstance(x, tuple):
+            todo.extend(x)
+        else:
+            d = getattr(x, "__dict__", None)
+            if isinstance(d, dict):
+                out[id(x)] = type(x).__name__
+                todo.extend(d.values())
+    return out
+
+
+class AliasWatch:
+    """While active, records for every FlowParser (= one template instance, blocks included) the identity of every mutable
+    object reachable from (i) the context its SheetParser works in, (ii) every value added to that context afterwards (loop
+    variables), (iii) every parsed row it is handed.  `shared()` = the objects reachable from two different instances: a channel
+    between instances whatever the templates do with it."""
+
+    def __init__(self):
+        self.instances = []     # (flow name, {route: {id: type name}})
+        self.by_sheetparser = {}
+        self.keep = []
+
+    def __enter__(self):
+        import rpft.parsers.creation.flowparser as fp
+        import rpft.parsers.common.sheetparser as sp
+        self.FP, self.SP = fp.FlowParser, sp.SheetParser
+        self.orig = (self.FP.__init__, self.SP.add_to_context, self.SP.parse_next_row)
+        w = self
+
+        def fp_init(self_, *a, **k):
+            w.orig[0](self_, *a, **k)
+            shp = getattr(self_, "sheet_parser", None)
+            if shp is not None and id(shp) not in w.by_sheetparser:
+                rec = {"context": reachable_mutables(getattr(shp, "context", None), w.keep), "loop variable": {}, "parsed row": {}}
+                w.keep.append(shp)
+                w.by_sheetparser[id(shp)] = rec
+                w.instances.append((getattr(self_, "flow_name", "?"), rec))
+
+        def add_to_context(self_, key, value, *a, **k):
+            rec = w.by_sheetparser.get(id(self_))
+            if rec is not None:
+                rec["loop variable"].update(reachable_mutables(value, w.keep))
+            return w.orig[1](self_, key, value, *a, **k)
+
+        def parse_next_row(self_, *a, **k):
+            r = w.orig[2](self_, *a, **k)
+            rec = w.by_sheetparser.get(id(self_))
+            if rec is not None and r is not None:
+                rec["parsed row"].update(reachable_mutables(r, w.keep))
+            return r
+
+        self.FP.__init__, self.SP.add_to_context, self.SP.parse_next_row = fp_init, add_to_context, parse_next_row
+        return self
+
+    def __exit__(self, *exc):
+        self.FP.__init__, self.SP.add_to_context, self.SP.parse_next_row = self.orig
+        return False
+
+    def shared(self):
+        """[(type name, [(instance index, flow name, route), ...])] for every mutable object two instances can reach"""
+        owners = {}
+        for k, (name, rec) in enumerate(self.instances):
+            for route, ids in rec.items():
+                for i, tn in ids.items():
+                    owners.setdefault(i, (tn, []))[1].append((k, name, route))
+        out = []
+        for i, (tn, who) in owners.items():
+            if len({k for k, _, _ in who}) >= 2:
+                out.append((tn, sorted(set(who))))
+        return out
+
+
+# =====================================================================================
 # (b) the differential oracle on the real implementation
 # =====================================================================================
 def check_case(ctx, case, alone_budget=3, record=None, history=True):
@@ -1232,10 +1718,18 @@ def check_case(ctx, case, alone_budget=3, record=None, history=True):
     insts = [(c, i) for c in case["creates"] for (_, i) in instances_of(case, c)]
     names = [flow_name(c, i) for c, i in insts]
     unique = len(set(names)) == len(names)
-    A = compile_book(book(case, rows_A(case)))
+    with AliasWatch() as watch:
+        A = compile_book(book(case, rows_A(case)))
     B = compile_book(book(case, rows_B(case)))
     rep = dict(fn="case", case=case)
     nfail = 0
+    sh = watch.shared()
+    if record is not None:
+        record["watched_instances"] = len(watch.instances)
+        record["shared"] = sh
+    elif sh:
+        print("   instances of index A reach the same mutable object:", sh[:3])
+    del watch
 
     def fail(key, msg):
         nonlocal nfail
@@ -1260,6 +1754,13 @@ def check_case(ctx, case, alone_budget=3, record=None, history=True):
     if A[0] != "ok":
         if unique and len(sample) == len(insts) and all(a[0] == "ok" for a in alone.values()):
             fail("bulk-error-not-in-any-single", f"index A stops ({A[1:]}) but every instance compiles alone")
+        elif case["malformed"] is None and re.search(r'Error while parsing cell "(AL|BM)', str(A[2:])) \
+                and all(expected_texts(case, c, i) is not None for c, i in insts):
+            # a cell of a mutating feature: the generator writes it so that it is defined on the values the property gives the instance
+            # (every unguarded pop has an element to pop when the instance works on lists of its own).  Other stops of a well-formed
+            # workbook are not judged: a loop all of whose rows are excluded leaves nothing to connect to; {@ x @} of the text "10" is
+            # the number 10, on which |length fails.
+            fail("mutating-cell-fails", f"a cell that changes a list in place fails ({A[1:]}): it is defined when the instance works on its own values")
         return nfail
     fa = A[1]["flows"]
     got_names = [f["name"] for f in fa]
@@ -1419,14 +1920,20 @@ def run(ctx):
     nontrivial |= run_args_correspondence(ctx, factory, n_args)
     n_bulk = (1500 if thorough else 150) * ctx.scale
     nontrivial |= run_bulk_correspondence(ctx, n_bulk)
+    n_alias = (3000 if thorough else 150) * ctx.scale
+    nontrivial |= run_alias_correspondence(ctx, n_alias)
 
     # ---------------- (b) differential
-    # a case costs ~0.85 s since wave 3 (markup features, nested blocks, the history on one parser): 1800 keeps the thorough tier under 30 min
-    n_cases = (1800 if thorough else 110) * ctx.scale
+    # a case costs ~0.85 s since wave 3 (markup features, nested blocks, the history on one parser), ~1.1 s since wave 4 (mutating features:
+    # more loops per template): 1400 keeps the thorough tier under 30 min, 95 the quick tier under 2
+    n_cases = (1400 if thorough else 95) * ctx.scale
     dist = {"valid": 0, "malformed": {}, "A_ok": 0, "A_err": 0, "instances": 0, "features": {}, "data_rows": {},
             "markup_kind": {}, "markup_column": {}, "markup_form": {},
-            "histories_on_one_parser": {"run": 0, "calls": {}, "lengths": {}, "with_a_repeated_call": 0, "registry_changed_by_calls": 0}}
+            "histories_on_one_parser": {"run": 0, "calls": {}, "lengths": {}, "with_a_repeated_call": 0, "registry_changed_by_calls": 0},
+            "mutating_route": {}, "mutating_op": {}, "mutating_unguarded_pop": 0, "same_literal_cell_in_two_loops": 0,
+            "identity_watch": {"workbooks": 0, "instances_watched": 0, "workbooks_with_a_shared_mutable_object": 0, "shared_by_route": {}}}
     samples = []
+    first_shared = None
     for k in range(n_cases):
         malformed = (k % 7 == 6)
         case = gen_case(rng, malformed)
@@ -1445,6 +1952,11 @@ def run(ctx):
         for tp in case["templates"].values():
             for f, p_ in tp["feats"]:
                 dist["features"][f] = dist["features"].get(f, 0) + 1
+                if f == "al":
+                    dist["mutating_route"][p_["route"]] = dist["mutating_route"].get(p_["route"], 0) + 1
+                    for o in p_["ops"]:
+                        dist["mutating_op"][o] = dist["mutating_op"].get(o, 0) + 1
+                    dist["mutating_unguarded_pop"] += 1 if any(o in ("pop", "pop0") for o in p_["ops"]) else 0
                 if f in ("mk", "mkloop"):
                     mks.append(p_)
                 elif f == "mkblock":
@@ -1452,6 +1964,18 @@ def run(ctx):
         for q in mks:
             for kk, vv in (("markup_kind", q["kind"]), ("markup_column", q["col"]), ("markup_form", q["form"])):
                 dist[kk][vv] = dist[kk].get(vv, 0) + 1
+        lit_uses = [p_["lit"] for tp in case["templates"].values() for f, p_ in tp["feats"] if f == "al" and p_["route"] == "lit2" for _ in range(2 if p_["twice"] else 1)]
+        dist["same_literal_cell_in_two_loops"] += 1 if len(lit_uses) != len(set(lit_uses)) else 0
+        iw = dist["identity_watch"]
+        iw["workbooks"] += 1
+        iw["instances_watched"] += rec.get("watched_instances", 0)
+        if rec.get("shared"):
+            iw["workbooks_with_a_shared_mutable_object"] += 1
+            for tn, who in rec["shared"]:
+                for rt in sorted({r_ for _, _, r_ in who}):
+                    iw["shared_by_route"][rt] = iw["shared_by_route"].get(rt, 0) + 1
+            if first_shared is None:
+                first_shared = (rec["shared"][0], dict(ids=case["ids"], creates=case["creates"]))
         if "history_ops" in rec:
             h = dist["histories_on_one_parser"]
             h["run"] += 1
@@ -1466,6 +1990,13 @@ def run(ctx):
             samples.append(dict(ids=case["ids"], creates=case["creates"],
                                 templates={n: dict(defs=t["defs"], feats=[f for f, _ in t["feats"]]) for n, t in case["templates"].items()}))
     ctx.stats["differential"] = dist
+    if first_shared is not None:
+        (tn, who), where = first_shared
+        ctx.disagree("two template instances of one run reach the SAME mutable object (through the context their SheetParser works in, a loop variable or "
+                     "a parsed row): the instances of the theorems share values, never objects (Index/Alias.v: every instance allocates its own)",
+                     repr(where)[:600], "no mutable object reachable from two instances",
+                     f"a {tn} reachable from {who[:4]!r}; {dist['identity_watch']['workbooks_with_a_shared_mutable_object']} workbooks, by route "
+                     f"{dist['identity_watch']['shared_by_route']!r}")
 
     v.coverage["distinct_nontrivial"] = len(nontrivial)
     v.coverage["rule"] = (
